@@ -46,7 +46,7 @@ def required_cells(tier):
     cells += ["chain-in-dead-parent:plain", "chain-in-dead-parent:with-elif", "chain-in-dead-parent:with-else"]
     cells += ["depth:1", "depth:2", "depth:3+", "define-in-dead-group", "define-in-live-group", "undef-live",
               "elif-after-taken-branch", "directive-continuation", "empty-group", "class:enum", "class:random",
-              "class:stress", "table-compared", "via-cli"]
+              "class:stress", "table-compared", "via-cli", "non-utf8-bytes", "block-comment-in-directive"]
     return cells
 
 
@@ -131,8 +131,20 @@ def run_case(ctx, workdir, text, defines, r, cls, check_table=True, case=None):
     """Execute one case through the real code and check it; records into ctx.acc."""
     acc = ctx.acc
     path = os.path.join(workdir, "main.c")
-    with open(path, "w") as f:
-        f.write(text)
+    if case is not None and case.get("latin1"):
+        # ISO-8859-1 bytes in comments: accepted silently by gcc, not valid UTF-8
+        lines_ = text.split("\n")
+        lines_[0] += "  /* Andr\xe9 \xa9 2001 */"
+        for k_ in range(2, len(lines_)):
+            if lines_[k_].strip() and not lines_[k_].rstrip().endswith(("\\", "*")) and "/*" not in lines_[k_]:
+                lines_[k_] += " // \xfc\xdf"
+                break
+        text = "\n".join(lines_)
+        with open(path, "w", encoding="latin-1") as f:
+            f.write(text)
+    else:
+        with open(path, "w") as f:
+            f.write(text)
     g = gcc.preprocess(path, defines=defines)
     if not g["ok"]:
         acc.excluded("gcc-diagnostic", cls=cls)
@@ -140,6 +152,10 @@ def run_case(ctx, workdir, text, defines, r, cls, check_table=True, case=None):
     exp, unknown = cprog.expected_lines(r, g["markers"])
     cells = cell_scan(r, g["markers"])
     cells.add("class:" + cls)
+    if case is not None and case.get("latin1"):
+        cells.add("non-utf8-bytes")
+    if " /* note *\n" in text:
+        cells.add("block-comment-in-directive")
     all_lines = set()
     for it in r.items:
         all_lines.update(it["lines"])
@@ -277,7 +293,7 @@ def run_shard(ctx):
         if not ctx.mine(i):
             continue
         style = {"cont": 0.15, "comment": 0.15, "indent": 0.1} if style_roll < 0.5 else None
-        case = {"ast": ast, "style": style, "sseed": srng_seed, "cli": (i % 50 == ctx.shard)}
+        case = {"ast": ast, "style": style, "sseed": srng_seed, "cli": (i % 50 == ctx.shard), "latin1": (i % 9 == 4)}
         r = render_case(case)
         if r.n_chains == 0:
             continue
